@@ -45,6 +45,8 @@ def generate(rng: random.Random, tier: str):
 
     # mark steps over textblocks whose content expression counts inline children (family "counted")
     yield from counted_cases(rng, 6 if quick else 60)
+    # steps as an untrusted peer may send them: slices that claim to be more open than their content is deep
+    yield from overopen_cases(rng, 30 if quick else 400)
 
 
 def counted_cases(rng, n):
@@ -82,6 +84,55 @@ def counted_cases(rng, n):
             m = rng.choice(marks)
             st = AddMarkStep(a, c, m) if rng.random() < 0.5 else RemoveMarkStep(a, c, m)
             yield S.apply_case(fam, doc, st, True, "counted-inline")[0]
+
+
+def overopen_cases(rng, n):
+    """ReplaceStep / ReplaceAroundStep whose slice has open depths its content does not have (open into a leaf, into
+    text, deeper than the nesting): decoded from JSON without validation, they must be refused, not crash"""
+    from prosemirror.model import Fragment, Slice
+    from prosemirror.transform import ReplaceStep
+    for fam in ("list", "blockmarks"):
+        g, docs = S.family_docs(rng, fam, 6)
+        sc = gen.family(fam)
+        for _ in range(n // 2):
+            doc = rng.choice(docs)
+            src = rng.choice(docs)
+            kids = [rng.choice(src.content.content)] if src.child_count else []
+            r = rng.random()
+            if r < 0.2:
+                kids = [sc.text("t")]
+            elif r < 0.4 and "horizontal_rule" in sc.nodes:
+                kids = [sc.nodes["horizontal_rule"].create()]
+            elif r < 0.5:
+                kids = [sc.nodes["paragraph"].create()]
+            elif r < 0.6 and src.child_count > 1:
+                kids = list(src.content.content[:2])
+            fr = Fragment.from_(kids)
+            os_, oe = rng.randint(0, 4), rng.randint(0, 4)
+            if os_ + oe > fr.size:          # keep Slice.size >= 0 (a negative size is outside the modelled domain)
+                os_ = min(os_, fr.size)
+                oe = min(oe, fr.size - os_)
+            sl = Slice(fr, os_, oe)
+            size = doc.content.size
+            a = rng.randint(0, size)
+            c = rng.randint(a, min(size, a + rng.randint(0, 8)))
+            if rng.random() < 0.7:
+                # positions whose depths are consistent with the claimed open depths, so that the slice gets past the
+                # depth checks of Node.replace and its real shape matters
+                ps = S.boundary_positions(doc)
+                deep = [p for p in ps if doc.resolve(p).depth >= os_]
+                if deep:
+                    a = rng.choice(deep)
+                    want = doc.resolve(a).depth - os_ + oe
+                    cs_ = [p for p in ps if p >= a and doc.resolve(p).depth == want]
+                    if cs_:
+                        c = rng.choice(cs_[:6])
+            st = ReplaceStep(a, c, sl)
+            try:
+                st = Step.from_json(sc, json.loads(json.dumps(st.to_json())))
+            except Exception:  # noqa: BLE001
+                continue
+            yield S.apply_case(fam, doc, st, True, "overopen-slice")[0]
 
 
 def Mark_same(a, b):
